@@ -1,6 +1,7 @@
 package icc
 
 import (
+	"bytes"
 	"fmt"
 	"github.com/mandykoh/prism/meta/binary"
 	"io"
@@ -213,7 +214,8 @@ func (pr *ProfileReader) readTagTable(tagTable *TagTable) error {
 	}
 	tagIndex := make(map[Signature]tagIndexEntry)
 
-	endOfTagData := uint32(0)
+	tagDataOffset := uint64(tagTableOffset) + 4 + uint64(tagCount)*12
+	endOfTagData := tagDataOffset
 	for i := uint32(0); i < tagCount; i++ {
 		sig, err := binary.ReadU32Big(pr.reader)
 		if err != nil {
@@ -230,8 +232,11 @@ func (pr *ProfileReader) readTagTable(tagTable *TagTable) error {
 			return err
 		}
 
-		if offset+size > endOfTagData {
-			endOfTagData = offset + size
+		if uint64(offset) < tagDataOffset {
+			return fmt.Errorf("tag data offset %d overlaps the tag table", offset)
+		}
+		if end := uint64(offset) + uint64(size); end > endOfTagData {
+			endOfTagData = end
 		}
 
 		tagIndex[Signature(sig)] = tagIndexEntry{
@@ -240,19 +245,21 @@ func (pr *ProfileReader) readTagTable(tagTable *TagTable) error {
 		}
 	}
 
-	tagDataOffset := tagTableOffset + 4 + (tagCount * 12)
-	tagData := make([]byte, endOfTagData-tagDataOffset)
-	bytesRead, err := io.ReadFull(pr.reader, tagData)
-	if err == io.ErrUnexpectedEOF {
-		return fmt.Errorf("expected %d bytes of tag data but only got %d", len(tagData), bytesRead)
+	// Read incrementally so that memory use is bounded by the data actually
+	// present rather than by the declared offsets and sizes.
+	tagDataBuffer := &bytes.Buffer{}
+	bytesRead, err := io.CopyN(tagDataBuffer, pr.reader, int64(endOfTagData-tagDataOffset))
+	if err == io.EOF {
+		return fmt.Errorf("expected %d bytes of tag data but only got %d", endOfTagData-tagDataOffset, bytesRead)
 	}
 	if err != nil {
 		return err
 	}
+	tagData := tagDataBuffer.Bytes()
 
 	for sig, entry := range tagIndex {
-		startOffset := entry.offset - tagDataOffset
-		endOffset := startOffset + entry.size
+		startOffset := uint64(entry.offset) - tagDataOffset
+		endOffset := startOffset + uint64(entry.size)
 		tagTable.add(sig, tagData[startOffset:endOffset])
 	}
 
